@@ -60,6 +60,8 @@ def cmd_run(sid: str, checks: list[str], tier: str = "quick") -> dict:
         print("refusing: /repo/pyjelly has uncommitted changes")
         sys.exit(2)
     res: dict = {"seed": sid, "property": meta.get("property"), "checks": {}}
+    prev_path = os.path.join(d, "result.json")
+    prev = json.load(open(prev_path)) if os.path.exists(prev_path) else {}
     # demo on the clean tree
     r = sh([PY, os.path.join(d, "demo.py"), REPO], timeout=600)
     res["demo_clean_rc"] = r.returncode
@@ -88,6 +90,11 @@ def cmd_run(sid: str, checks: list[str], tier: str = "quick") -> dict:
                 res["checks"][c]["stderr"] = r.stderr[-500:]
     finally:
         revert()
+    merged = dict(prev.get("checks", {}))
+    merged.update(res["checks"])
+    res["checks"] = merged
+    res["repo_head"] = sh(f"git -C {REPO} log --format=%h -1").stdout.strip()
+    res["tier"] = tier
     caught = [c for c, v in res["checks"].items() if v["rc"] == 1]
     res["caught_by"] = caught
     print(json.dumps(res, indent=1))
